@@ -549,6 +549,18 @@ func (env *SpecEnv) call(e *SExpr) Val {
 		key := "A$" + elemKey(xt.Elem())
 		u.keySort(key, arr2(sortOf(xt.Elem())))
 		return Val{T: sel(u.get(env.cur, key), sArr(x.T)), Typ: types.NewArray(xt.Elem(), -1)}
+	case "rowAt":
+		// rowAt(T, a): the whole backing array a in the element family of T (extensional frame statements)
+		if len(e.Args) != 2 {
+			env.fail(e, "rowAt(T, array)")
+		}
+		rt := env.ex.resolveType(e.Args[0].String(), env.pkg)
+		if rt == nil {
+			env.fail(e, "rowAt: unknown type %s", e.Args[0].String())
+		}
+		rkey := "A$" + elemKey(rt)
+		u.keySort(rkey, arr2(sortOf(rt)))
+		return Val{T: sel(u.get(env.cur, rkey), arg(1).T), Typ: types.NewArray(rt, -1)}
 	case "elem":
 		// elem(T, a, j): cell j of backing array a in the element family of T
 		if len(e.Args) != 3 {
